@@ -54,7 +54,23 @@ def url_encode(s):
     return "".join(c if c in UNRESERVED else "".join("%%%02X" % b for b in c.encode("utf-8")) for c in s)
 
 
+def pct_octets(s):
+    """percent_decode_str: the decoded octets (what literal segments are compared by)"""
+    b = s.encode("utf-8")
+    out = bytearray()
+    i = 0
+    while i < len(b):
+        if b[i] == 0x25 and i + 2 < len(b) and chr(b[i + 1]) in HEX and chr(b[i + 2]) in HEX:
+            out.append(int(b[i + 1:i + 3].decode(), 16))
+            i += 3
+        else:
+            out.append(b[i])
+            i += 1
+    return bytes(out)
+
+
 def pct_decode(s):
+    """percent_decode_str(..).decode_utf8_lossy(): the text a parameter is bound to"""
     b = s.encode("utf-8")
     out = bytearray()
     i = 0
@@ -95,11 +111,13 @@ def scheme_legal(s):
 
 # ----------------------------------------------------------------------------- concretisation pools
 
-def theme(a, ae, b, du, ul, dv, dw, wl, dt, x, y, xe, s, t, sr):
+def theme(a, ae, b, du, ul, dv, dw, wl, dt, x, y, xe, s, t, sr, inv):
+    i1, i1l, i2 = inv       # escapes of octets that are not valid UTF-8: two spellings of one, and a different one
     th = {
         "seg": {"a": a, "ae": ae, "b": b, "ue": url_encode(du), "ul": ul, "ur": du,
-                "v": dv, "we": url_encode(dw), "wl": wl, "tr": dt, "e": ""},
-        "dec": {"a": pct_decode(a), "b": pct_decode(b), "u": du, "v": dv, "w": dw, "t": dt},
+                "v": dv, "we": url_encode(dw), "wl": wl, "tr": dt, "e": "",
+                "i1": i1, "i1l": i1l, "i2": i2, "rf": url_encode(pct_decode(i1))},
+        "dec": {"a": pct_decode(a), "b": pct_decode(b), "u": du, "v": dv, "w": dw, "t": dt, "r": pct_decode(i1)},
         "name": {"x": x, "y": y, "xe": xe},
         "scheme": {"s": s, "t": t, "sr": sr},
     }
@@ -112,7 +130,19 @@ def theme(a, ae, b, du, ul, dv, dw, wl, dt, x, y, xe, s, t, sr):
     assert url_encode(dv) == dv and uri_legal_text(dv)
     assert pct_decode(wl) == dw and wl != sg["we"] and uri_legal_text(wl) and uri_legal_text(sg["we"]) and ":" not in wl
     assert "~" in dt and url_encode(dt) == dt and uri_legal_text(dt)
-    assert len(set(dc.values())) == 6 and all(dc.values())
+    # SymOct / SymDec on the invalid-UTF-8 symbols: one lossy text (it contains U+FFFD), three different octet strings,
+    # none of them valid UTF-8 except "rf", which is the canonical encoding of that text
+    rf = sg["rf"]
+    assert pct_decode(i1) == pct_decode(i1l) == pct_decode(i2) == pct_decode(rf) == dc["r"] and "\ufffd" in dc["r"]
+    assert pct_octets(i1) == pct_octets(i1l) and len({pct_octets(i1), pct_octets(i2), pct_octets(rf)}) == 3 and len({i1, i1l, i2, rf}) == 4
+    for z in (i1, i2):
+        try:
+            pct_octets(z).decode("utf-8")
+            raise AssertionError("valid UTF-8: " + z)
+        except UnicodeDecodeError:
+            pass
+    assert pct_octets(rf).decode("utf-8") == dc["r"] and all(uri_legal_text(z) for z in (i1, i1l, i2, rf))
+    assert len(set(dc.values())) == 7 and all(dc.values())
     assert all(":" not in z and "/" not in z for z in (a, ae, b, ul, wl))
     assert pct_decode(x) == x and pct_decode(y) == y and pct_decode(xe) == x and len({x, y, xe}) == 3
     assert all(":" not in n and "/" not in n and n for n in (x, y, xe))
@@ -123,17 +153,17 @@ def theme(a, ae, b, du, ul, dv, dw, wl, dt, x, y, xe, s, t, sr):
 
 THEMES = [
     theme("a", "%61", "b", "é", "%c3%a9", "v", "hello world!", "hello%20world!", "a~b",
-          "id", "name", "%69d", "swim", "warp", "a_b"),
+          "id", "name", "%69d", "swim", "warp", "a_b", ("caf%E9", "caf%e9", "caf%E8")),
     theme("node-1", "node%2D1", "unit%2Ffoo", "日本", "%e6%97%a5%E6%9C%AC", "x.y_z-0", "%41/é?#",
-          "%2541%2F%c3%a9%3f%23", "~", "x", "x1", "%78", "a+b.c-d", "S", "a b"),
+          "%2541%2F%c3%a9%3f%23", "~", "x", "x1", "%78", "a+b.c-d", "S", "a b", ("%FF", "%fF", "%FE")),
     theme("A", "%41", "a", "a b", "%61%20b", "0", ":x", "%3ax", "~~",
-          "a", "A", "%61", "h", "H", "x~"),
+          "a", "A", "%61", "h", "H", "x~", ("%C3", "%c3", "%C2")),
     theme("meta.node", "meta%2Enode", "%61", "x?y#z", "x%3fy%23z", "Z9", "a+b&c=d", "a%2bb%26c%3dd", "-~-",
-          "node_id", "lane", "node%5Fid", "swimos", "swimo", "s_"),
+          "node_id", "lane", "node%5Fid", "swimos", "swimo", "s_", ("%C0%AF", "%c0%af", "%C1%AF")),
     theme("z", "%7A", "zz", "50%", "5%30%25", "v1", "%zz", "%25%7a%7A", "x~y",
-          "p q", "é", "p%20q", "w3", "w4", "a^"),
+          "p q", "é", "p%20q", "w3", "w4", "a^", ("%C3%A9%E9x", "%c3%a9%e9%78", "%C3%A9%E8x")),
     theme("q", "%71", "Q", "\U0001f600", "%f0%9f%98%80", "w", "\u0000\n", "%00%0a", "~0",
-          "k", "kk", "%6b", "x", "y", "z z"),
+          "k", "kk", "%6b", "x", "y", "z z", ("%E6%97", "%e6%97", "%E6%98")),
 ]
 
 CHAR_THEMES = [
@@ -147,6 +177,9 @@ CHAR_THEMES = [
     {"a": "g", "b": "h", "1": "\U0001f600"},
     {"a": "e", "b": "f", "1": " "},
     {"a": "u", "b": "w", "1": "#"},
+    {"a": "c", "b": "f", "1": "%E9"},       # an escape of an octet that is not valid UTF-8 (three characters per "1")
+    {"a": "k", "b": "l", "1": "%FF"},
+    {"a": "o", "b": "p", "1": "%C3"},       # a truncated two-octet sequence
 ]
 
 
@@ -301,8 +334,8 @@ def eval_pat(rec, ti, case, res, T):
                 bad_shapes = shapes & {"F8c", "F8d", "F8f"}
                 if "F8b" in shapes and o.get("rt") is not None and set(o["rt"]) == decoded_keys(m_used) != set(m_used):
                     cand.append("F8b")
-                if "F8c" in shapes and (o.get("rt") is None or not route_legal(o["r"])):
-                    cand.append("F8c")
+                if "F8c" in shapes and th["seg"]["ur"] in o["r"] and not route_legal(o["r"]):
+                    cand.append("F8c")      # the literal that no RouteUri can hold is in the produced route, verbatim
                 if "F8f" in shapes and (not o.get("uri_ok") or o.get("uscheme") != exp_parse["scheme"]):
                     cand.append("F8f")      # RouteUri does not read the pattern's scheme as a scheme
                 if "F8d" in shapes and o.get("rt") is None and o["r"].endswith(":"):
@@ -397,7 +430,7 @@ def eval_tab(rec, ti, case, res, T):
         T.law("MatchAsSpecified")
         if r["all"] != exp_all:
             T.reject("MatchAsSpecified", "routes %s, URI %r: matched by %s, specification %s" % (ps, u, r["all"], exp_all), [], ctx)
-            continue
+            # no `continue`: the laws below are about what the real code matched, whatever the specification expected
         if r["first"] != (min(r["all"]) if r["all"] else None):
             T.reject("FindRoute", "routes %s, URI %r: first match %s of %s" % (ps, u, r["first"], r["all"]), [], ctx)
         # L3 on what the real code did: two routes really match u => are_ambiguous must say so, both ways
@@ -463,7 +496,7 @@ def rec_shapes(p):
 
 # ----------------------------------------------------------------------------- STR: a pattern string (parser)
 
-STR_VALS = ["v", "hello world!", "é/%41"]
+STR_VALS = ["v", "hello world!", "é/%41\ufffd"]
 
 
 def build_str(rec, ti, cid):
@@ -502,8 +535,8 @@ def eval_str(rec, ti, case, res, T):
             T.reject("RoundTrip", "pattern %r: apply fails (%s) on the complete map %s" % (s, a.get("missing"), json.dumps(m_used)), [], ctx)
         elif a.get("rt") != m_used or a.get("rt_uri") != m_used:
             cand = []
-            if not legal and (a.get("rt") is None or not route_legal(a["r"])):
-                cand.append("F8c")
+            if not legal and not route_legal(a["r"]):
+                cand.append("F8c")          # text that no RouteUri can hold is in the produced route, verbatim
             if not sch_legal and (not a.get("uri_ok") or a.get("uscheme") != o.get("scheme")):
                 cand.append("F8f")
             if rec["ok"] and not rec["segs"] and a.get("rt") is None and a["r"].endswith(":"):
@@ -593,8 +626,8 @@ def gen_cfg(maxlen, findings=ALL_FINDINGS, dump=True):
 
 
 def sim_cfg():
-    k = dict(LitSyms=tset(["a", "ae", "b", "ue", "ul", "ur"]), ParSyms=tset(["x", "y", "xe"]), Schemes=tset(["", "s", "t", "sr"]),
-             AbsFlags=tset([True, False]), MaxSegs=5, MaxRoutes=5, Findings=tset(ALL_FINDINGS), DeepOverlap=False)
+    k = dict(LitSyms=tset(["a", "ae", "b", "ue", "ul", "ur", "i1", "i1l", "i2", "rf"]), ParSyms=tset(["x", "y", "xe"]),
+             Schemes=tset(["", "s", "t", "sr"]), AbsFlags=tset([True, False]), MaxSegs=5, MaxRoutes=5, Findings=tset(ALL_FINDINGS), DeepOverlap=False)
     return core.cfg(next_="SimNext", constants=k, invariants=[l for l in LAWS if l != "TypeOK"] + ["PatDump", "TabDump"],
                     properties=["FindIsTheMatch"])
 
@@ -608,6 +641,12 @@ def plan(tier):
             ("patterns", "MC_Route", route_cfg(L6, ["x", "y", "xe"], ["", "s", "sr"], [True, False], 2, 1), 1, 6),
             ("patterns3", "MC_Route", route_cfg(["a", "ae", "ur"], ["x", "xe"], ["", "s"], [True, False], 3, 1), 1, 2),
             ("pairs", "MC_Route", route_cfg(["a", "ae", "b"], ["x", "y"], ["", "s"], [True, False], 2, 2), 1, 1),
+            # escapes of octets that are not valid UTF-8 (%E9 / %e9 / %E8 / %EF%BF%BD): one lossy text, different octets.
+            # Literals are compared by octets - in unapply and in are_ambiguous alike.
+            ("patterns-octets", "MC_Route", route_cfg(["a", "i1", "i1l", "i2", "rf", "ur"], ["x"], ["", "s"], [True, False], 2, 1), 1, 6),
+            ("pairs-octets", "MC_Route", route_cfg(["a", "i1", "i1l", "i2", "rf"], ["x"], [""], [True], 2, 2), 1, 3),
+            ("tables-octets", "MC_Route", route_cfg(["i1", "i2", "rf"], ["x"], [""], [True], 1, 3), 1, 2),
+            ("overlap-def-octets", "Route", route_cfg(["i1", "i1l", "i2", "rf"], ["x"], ["", "s"], [True, False], 2, 2, deep=True, dump=False), 2, 0),
             # schemes: a URI without a scheme matches a pattern of ANY scheme, so 's:/a' and 't:/a' overlap - needs two
             # explicit scheme symbols, all of (none, s) (s, s) (s, t), and witnesses with no scheme / s / t
             ("pairs-schemes", "MC_Route", route_cfg(["a", "b"], ["x"], ["", "s", "t"], [True, False], 2, 2), 1, 2),
@@ -622,6 +661,10 @@ def plan(tier):
         ("patterns", "MC_Route", route_cfg(L6, ["x", "y", "xe"], ["", "s", "t", "sr"], [True, False], 3, 1), 1, 6),
         ("pairs", "MC_Route", route_cfg(["a", "ae", "b", "ue", "ur"], ["x", "y", "xe"], ["", "s", "t"], [True, False], 2, 2), 1, 2),
         ("pairs3", "MC_Route", route_cfg(["a", "ae", "b", "ur"], ["x", "y"], [""], [True], 3, 2), 1, 2),
+        ("patterns-octets", "MC_Route", route_cfg(["a", "i1", "i1l", "i2", "rf", "ur"], ["x", "xe"], ["", "s"], [True, False], 3, 1), 1, 6),
+        ("pairs-octets", "MC_Route", route_cfg(["a", "ae", "i1", "i1l", "i2", "rf", "ur"], ["x", "y"], ["", "s"], [True, False], 2, 2), 1, 3),
+        ("tables-octets", "MC_Route", route_cfg(["a", "i1", "i2", "rf"], ["x"], [""], [True], 2, 3), 1, 2),
+        ("overlap-def-octets", "Route", route_cfg(["a", "i1", "i1l", "i2", "rf"], ["x"], ["", "s"], [True, False], 2, 2, deep=True, dump=False), 4, 0),
         ("tables", "MC_Route", route_cfg(["a", "ae", "b"], ["x"], [""], [True], 2, 4), 1, 2),
         ("tables-mixed", "MC_Route", route_cfg(["a", "ae"], ["x"], ["", "s", "t"], [True, False], 2, 3), 1, 2),
         ("overlap-def", "Route", route_cfg(["a", "ae", "b", "ue", "ur"], ["x", "xe"], ["", "s", "t"], [True, False], 2, 2, deep=True, dump=False), 4, 0),
